@@ -1,6 +1,8 @@
 package main
 
 import (
+	"database/sql"
+	"context"
 	"encoding/json"
 	"fmt"
 	"os"
@@ -27,7 +29,7 @@ func note(format string, a ...any) {
 
 func faultCases(prop, tier string, seed uint64) []Case {
 	r := newRand(subSeed(seed, prop, tier))
-	n, steps := 64, 10
+	n, steps := 40, 10
 	if tier == "thorough" {
 		n, steps = 1200, 14
 	}
@@ -130,6 +132,36 @@ func faultRun(prop, tier string, c Case, w *Worker) (res Result) {
 			break
 		}
 	}
+	// handle-level calls and a restore on whatever files exist now (appended to the history as two more calls)
+	var filesNow []string
+	for k, e := range tree {
+		if e.Kind == "f" && !hasCodecSuffix(k) {
+			filesNow = append(filesNow, k)
+		}
+	}
+	sort.Strings(filesNow)
+	if len(filesNow) > 0 {
+		pick := filesNow[int(c.Seed%uint64(len(filesNow)))]
+		for _, op := range []Op{{K: "hseq", A: pick, Len: 700, Dist: "text", DSeed: c.Seed}, {K: "restore", A: pick}} {
+			rig.LocksSettled()
+			snap := w.NewDir("snap")
+			if err := CloneDir(dir, snap, true); err != nil {
+				res.Verdict, res.Msg = "inconclusive", err.Error()
+				return
+			}
+			rig.Seams.ResetCounts()
+			note("fault-free %s", op)
+			_ = execOp(rig, op)
+			res.count("calls_fault_free", 1)
+			res.count("calls_"+op.K, 1)
+			if !fc.afterCallNoProbe(rig, "fault-free", op) {
+				rig.Close()
+				return
+			}
+			recs = append(recs, rec{op: op, snap: snap, counts: rig.Seams.Counts()})
+			hops = append(hops, op)
+		}
+	}
 	rig.LocksSettled()
 	rig.Close()
 	// 2. one re-run per reachable fault point
@@ -159,6 +191,16 @@ func faultRun(prop, tier string, c Case, w *Worker) (res Result) {
 				}
 			}
 		}
+		// the index database itself refuses: another connection (a second process, a backup job) holds its write lock, resp. all of
+		// it, for the duration of the call; afterwards the database is perfectly usable again
+		for _, mode := range []string{"IMMEDIATE", "EXCLUSIVE"} {
+			what := fmt.Sprintf("index database locked (BEGIN %s by another connection) during call %d", mode, ci)
+			if !fc.lockedDB(rc.snap, rc.op, mode, what) {
+				res.Detail = map[string]any{"cfg": cfg, "call": rc.op, "fault": "dblock-" + mode, "history": opsUpTo(hops, ci)}
+				return
+			}
+			res.count("fault_points_db_locked", 1)
+		}
 		// the drive cannot be opened at OS level for the duration of the call
 		if rc.counts["openw"]+rc.counts["openr"] > 0 {
 			what := fmt.Sprintf("drive directory missing during call %d", ci)
@@ -167,6 +209,73 @@ func faultRun(prop, tier string, c Case, w *Worker) (res Result) {
 				return
 			}
 			res.count("fault_points_os_open", 1)
+		}
+	}
+	// 3. opening: construct + Initialize over the final tape with the index absent (rebuild on open) and with the index present,
+	// one re-run per event the fault-free open reaches
+	for _, withIndex := range []bool{false, true} {
+		od := w.NewDir("open0")
+		if err := CloneDir(dir, od, withIndex); err != nil {
+			res.Verdict, res.Msg = "inconclusive", err.Error()
+			return
+		}
+		org, err := NewRig(od, cfg)
+		if err != nil {
+			res.Verdict, res.Msg = "inconclusive", "rig: "+err.Error()
+			return
+		}
+		org.Seams.ResetCounts()
+		note("fault-free open (index present=%v)", withIndex)
+		oerr := org.Init()
+		org.LocksSettled()
+		counts := org.Seams.Counts()
+		org.Close()
+		if oerr != nil {
+			res.count("fault_free_opens_failing", 1)
+			continue
+		}
+		for _, class := range []string{"dread", "persist", "openr", "closer", "openw", "closew", "dwrite"} {
+			for k := 1; k <= counts[class]; k++ {
+				for _, sticky := range []bool{false, true} {
+					what := fmt.Sprintf("fault %s#%d (persistent=%v) while opening, index present=%v", class, k, sticky, withIndex)
+					d := w.NewDir("openf")
+					if err := CloneDir(dir, d, withIndex); err != nil {
+						res.Verdict, res.Msg = "inconclusive", err.Error()
+						return
+					}
+					rg, err := NewRig(d, cfg)
+					if err != nil {
+						res.Verdict, res.Msg = "inconclusive", "rig: "+err.Error()
+						return
+					}
+					note("%s", what)
+					rg.Seams.Arm(&Fault{Class: class, K: k, Sticky: sticky})
+					ierr := rg.Init()
+					fired := rg.Seams.Disarm()
+					if fired {
+						res.count("fault_points_fired", 1)
+						res.count("open_fault_points", 1)
+						if ierr != nil {
+							res.count("opens_failing_on_fault", 1)
+						}
+						if held := rg.LocksSettled(); len(held) > 0 {
+							res.violate("c10|"+fc.kind+"|locks-held|open|"+class, fmt.Sprintf("[%s] %s: Initialize returned (%v) but the instance still holds %v", cfg, what, ierr, held))
+							res.Detail = map[string]any{"cfg": cfg, "fault": class, "k": k, "persistent": sticky, "index_present": withIndex, "history": opNames(hops)}
+							rg.Close()
+							return
+						}
+						// a second attempt on the same instance must return as well
+						_, _ = rg.S.Initialize("/", os.ModePerm)
+						if held := rg.LocksSettled(); len(held) > 0 {
+							res.violate("c10|"+fc.kind+"|locks-held-after-probe|open|"+class, fmt.Sprintf("[%s] %s: a second Initialize left %v held", cfg, what, held))
+							res.Detail = map[string]any{"cfg": cfg, "fault": class, "k": k, "persistent": sticky, "index_present": withIndex, "history": opNames(hops)}
+							rg.Close()
+							return
+						}
+					}
+					rg.Close()
+				}
+			}
 		}
 	}
 	var kinds []string
@@ -237,6 +346,58 @@ func (fc *faultCtx) oneFault(snap string, op Op, f *Fault, what string, breakDri
 		fc.res.count("fault_points_not_reached_on_rerun", 1)
 		return true
 	}
+	fc.res.count("fault_points_fired", 1)
+	if out.OK {
+		fc.res.count("calls_succeeding_despite_fault", 1)
+	} else {
+		fc.res.count("calls_failing_on_fault", 1)
+	}
+	return fc.afterCall(rig, what, op)
+}
+
+// lockedDB re-runs the call while a second connection holds a lock on the index database, releases it and checks C10's conclusion.
+func (fc *faultCtx) lockedDB(snap string, op Op, mode, what string) bool {
+	d := fc.w.NewDir("dbl")
+	if err := CloneDir(snap, d, true); err != nil {
+		fc.res.Verdict, fc.res.Msg = "inconclusive", err.Error()
+		return false
+	}
+	rig, err := NewRig(d, fc.cfg)
+	if err != nil {
+		fc.res.Verdict, fc.res.Msg = "inconclusive", "rig: "+err.Error()
+		return false
+	}
+	defer rig.Close()
+	srcSeams = rig.Seams
+	if err := rig.Init(); err != nil {
+		fc.res.Verdict, fc.res.Msg = "inconclusive", "reopen snapshot: "+err.Error()
+		return false
+	}
+	other, err := sql.Open("sqlite", rig.DB)
+	if err != nil {
+		fc.res.Verdict, fc.res.Msg = "inconclusive", "second connection: "+err.Error()
+		return false
+	}
+	defer other.Close()
+	ctx := context.Background()
+	conn, err := other.Conn(ctx)
+	if err != nil {
+		fc.res.Verdict, fc.res.Msg = "inconclusive", "second connection: "+err.Error()
+		return false
+	}
+	defer conn.Close()
+	if _, err := conn.ExecContext(ctx, "BEGIN "+mode); err != nil {
+		fc.res.Verdict, fc.res.Msg = "inconclusive", "locking the index database: "+err.Error()
+		return false
+	}
+	note("%s: %s", what, op)
+	out := execOp(rig, op)
+	if _, err := conn.ExecContext(ctx, "ROLLBACK"); err != nil {
+		fc.res.Verdict, fc.res.Msg = "inconclusive", "unlocking the index database: "+err.Error()
+		return false
+	}
+	_ = conn.Close()
+	_ = other.Close()
 	fc.res.count("fault_points_fired", 1)
 	if out.OK {
 		fc.res.count("calls_succeeding_despite_fault", 1)
@@ -322,6 +483,6 @@ func rejectionRun(fc *faultCtx, c Case) (res Result) {
 func init() {
 	register(&Engine{Name: "faults", Props: []string{"C10"}, Cases: faultCases, Run: faultRun})
 	propMeta["C10"] = PropMeta{Level: "fault_enumeration",
-		Rule: "per case one generated history (fs-level and batched calls) is run fault-free while the seams count, per call, the drive writes, drive reads, index-store calls, write-cache calls, source reads and drive opens it reaches; then the call is re-run from a snapshot of the instance taken before it once for every k up to each count with exactly that event failing (error, and short write for drive writes; closing the drive writer/reader, the write-cache clean-up and the source's Close report an error after doing their work), once more per point as the first event of a PERSISTENT failure (from that event on every drive open / read / write / close - resp. every write-cache call, every source call, every index-store call - fails until the call returns), and once with the drive directory missing; after each: the call returned, the process lives, no lock is held once the streaming goroutine has settled (lock hooks), and a probe lookup + mutating call return; plus two cases of explicit precondition rejections; non-trivial = at least 20 fault points fired; distinct = distinct (configuration, history)",
+		Rule: "per case one generated history (fs-level and batched calls, then one handle driven through ReadAll / Seek / Write / Sync / WriteAt / Truncate / WriteString / Stat / Close and one Operations.Restore) is run fault-free while the seams count, per call, the drive writes, drive reads, index-store calls, write-cache calls, source reads and drive opens it reaches; then the call is re-run from a snapshot of the instance taken before it once for every k up to each count with exactly that event failing (error, and short write for drive writes; closing the drive writer/reader, the write-cache clean-up and the source's Close report an error after doing their work), once more per point as the first event of a PERSISTENT failure (from that event on every drive open / read / write / close - resp. every write-cache call, every source call, every index-store call - fails until the call returns), and once with the drive directory missing; once each with the index database's write lock resp. exclusive lock held by a second connection for the duration of the call (the real SQLite file refuses, not a wrapper) and released afterwards; finally construct + Initialize over the final tape, with the index absent (rebuild on open) and present, is re-run once per drive / index-store event it reaches, transient and persistent, followed by a second Initialize on the same instance; after each: the call returned, the process lives, no lock is held once the streaming goroutine has settled (lock hooks), and a probe lookup + mutating call return; plus two cases of explicit precondition rejections; non-trivial = at least 20 fault points fired; distinct = distinct (configuration, history)",
 		Assumptions: []string{"the state after a fault is not judged", "re-runs start from a reopened copy of the instance as it was before the call (index + tape), not from a replay of the whole history", "hang verdicts come from the no-progress watchdog classified by goroutine state"}}
 }
